@@ -594,7 +594,7 @@ class Check:
             "%d disagreements, %d failures, %.1fs%s"
             % (self.pid, self.tier, self.seed, cov["discharged"], cov["obligations"], self.evaluations,
                len(self.nontrivial), len(self.disagreements), len(self.failures), wall,
-               " [escalated: anchored files changed]" if self.escalated else "")
+               " [escalated: anchored files changed]" if (self.escalated or self.drift and self.tier == "quick") else "")
         )
         sys.stdout.flush()
         return status
